@@ -116,10 +116,11 @@ PROPS = {
         technique='ASan+UBSan+LeakSanitizer run with an invariant hook on the decoder (pending reassemblies, guarded by ASAM_CMP_VERIF) compared with a reference reassembly model after every decode call',
         level_text='Exploration with an exhaustive core: after EVERY decode call the hooked list of (device, stream, buffered bytes) must equal the set of endpoints the reference model holds open, with buffered bytes <= received segment bytes; all 59049 words of length 5 over a 9-letter frame alphabet (first/mid/last/unsegmented/invalid/wrong-version/wrong-counter/TECMP/runt) on one endpoint (all words of length 4 over two endpoints in thorough) and seeded random multi-endpoint histories.',
         level_note='Trusted: ref_decoder.h (validated on > 1 M frames, see DESIGN.md 7), the hook (read-only, inline). Restricted to frame shapes on which the reassembly rules are unambiguous.',
-        stages=[dict(driver='drv_decode', flavour='asan')],
-        rule=('cases = frame histories; every decode call is one evaluation (one comparison of the hooked pending list with the model). distinct_nontrivial = distinct (pending-state signature = sorted (endpoint, segments received) of the open messages, last frame letter) pairs observed.'),
+        stages=[dict(driver='drv_decode', flavour='asan'),
+                dict(driver='drv_alloc', flavour='plain0')],
+        rule=('cases = frame histories; every decode call is one evaluation (one comparison of the hooked pending list with the model); the second stage (drv_alloc, counting operator new/delete, no hook) adds release-after-destruction histories and long growth runs over ever-new endpoints. distinct_nontrivial = distinct (pending-state signature = sorted (endpoint, segments received) of the open messages, last frame letter) pairs observed.'),
         assumptions=COMMON_ASSUME,
-        floors=dict(quick=dict(distinct_nontrivial=5000, exhaustive_words_len5_one_endpoint=59049, quiescent_points=10000),
+        floors=dict(quick=dict(distinct_nontrivial=5000, exhaustive_words_len5_one_endpoint=59049, quiescent_points=10000, growth_runs=16, release_histories=2000),
                     thorough=dict(distinct_nontrivial=50000, exhaustive_words_len5_one_endpoint=59049, exhaustive_words_len4_two_endpoints=104976)),
         coverage_static=dict(quick=dict(exhaustive_subspaces=['all 9^5 frame-letter words on one endpoint']),
                              thorough=dict(exhaustive_subspaces=['all 9^5 frame-letter words on one endpoint', 'all 18^4 words over two endpoints'])),
@@ -139,17 +140,19 @@ PROPS = {
         technique='ASan (vector annotations) + UBSan + LeakSanitizer on Decoder::decode over mutated frame histories, inputs in read-only guard-paged mappings, ownership snapshots re-read after input and decoder are released; libFuzzer in the thorough tier',
         level_text='Exploration: histories of hostile byte strings (every truncation of ~55 canonical CMP/TECMP frames, every byte / 16-bit field of their first 96 bytes set to 17 hostile values, all 256 TECMP message types x 11 data types x sizes 28..52, structurally mutated generated frames, random bytes up to 64 KiB) are decoded on one decoder per history; inputs end at a PROT_NONE page and are read-only (an over-read or any write faults), every 4th input sits in an exact-size heap block (red zones); each returned packet is checked (non-null, payload object, <= 1 per 12 bytes), fully read, and re-read after the input is unmapped, more frames decoded and the decoder destroyed.',
         level_note='Trusted: ASan/UBSan/LSan and the MMU. Red zones miss far overflows inside other live blocks; guard pages cover the input side exactly. Termination is observed (watchdog), not proved.',
-        stages=[dict(driver='drv_memsafe', flavour='asan')],
+        stages=[dict(driver='drv_memsafe', flavour='asan'),
+                dict(driver='fuzz_decode', flavour='fuzz', runner='fuzz', tiers=('thorough',), runs=dict(thorough=8000000), max_len=4096)],
         rule=('cases = deterministic canonical-frame mutations + TECMP sweep + seeded random histories of 1..40 frames; every decode call is one evaluation. distinct_nontrivial = distinct (frame family + mutation kinds, packets accepted (0,1,2,3+)) pairs and (family, mutated field) pairs.'),
         assumptions=COMMON_ASSUME,
-        floors=dict(quick={'distinct_nontrivial': 3000, 'inputs_guard_paged_readonly': 50000, 'ownership_rechecks': 20000, 'tecmp_message_types_swept': 256, 'feat:c02_family_truncated': 49, 'feat:c02_family_field_mutated': 49},
+        floors=dict(quick={'distinct_nontrivial': 3000, 'inputs_guard_paged_readonly': 50000, 'ownership_rechecks': 20000, 'tecmp_message_types_swept': 256, 'reassembly_totals_beyond_65535': 24, 'feat:c02_family_truncated': 49, 'feat:c02_family_field_mutated': 49},
                     thorough={'distinct_nontrivial': 5000, 'tecmp_message_types_swept': 256}),
     ),
     'C03': dict(
         technique='ASan (vector annotations) + UBSan on validators, constructors and every const accessor, plus an explicit pointer-range oracle on every reported view; three paths (class validator, decoder, message-level validator)',
         level_text='Exploration: for each typed class, every buffer length 0..header+8 (and larger), every inner length field swept (8-bit fields exhaustively, 16-bit fields on a lattice in quick / exhaustively in thorough) on zero / ones / random backgrounds, every truncation of consistent payloads, and seeded semi-valid random buffers; accepted buffers are copied to an exact-size heap block that is freed before all accessors run; every (pointer, length) view must lie inside [getRawPayload(), +getLength()].',
         level_note='Trusted: ASan and the range oracle in accessors.h. One-directional: rejected buffers are skipped (accept/reject split is reported).',
-        stages=[dict(driver='drv_memsafe', flavour='asan')],
+        stages=[dict(driver='drv_memsafe', flavour='asan'),
+                dict(driver='fuzz_payload', flavour='fuzz', runner='fuzz', tiers=('thorough',), runs=dict(thorough=16000000), max_len=2048)],
         rule=('cases = (class, buffer); every buffer is one evaluation run through three paths. Non-trivial = buffer accepted by the class validator; distinct = distinct (class, buffer content hash).'),
         assumptions=COMMON_ASSUME,
         floors=dict(quick={'distinct_nontrivial': 20000, 'accepted_can': 1000, 'accepted_canfd': 1000, 'accepted_lin': 1000, 'accepted_eth': 1000, 'accepted_analog': 1000, 'accepted_cm': 1000, 'accepted_if': 1000, 'feat:c03_classes': 7},
@@ -197,7 +200,8 @@ PROPS = {
         technique='ASan+UBSan run of Decoder::decode and TECMP::Decoder::Decode on wire-model TECMP frames; packets compared with an independent TECMP parse; unsupported / non-fitting messages must yield nothing',
         level_text='Exploration with exhaustive type sweeps: all 256 message types x 10 data types x 3 bodies, all 65536 data types on a data message, CAN 0..8 / CAN-FD 0..64 / LIN 0..8 data bytes x 0..3 CRC / checksum bytes x inner length byte fits -1/0/+1/+2/+200, bus status 0..40 entries (with incomplete tails, declared length +1 / 0), capture module status cut at every length, plus seeded random frames with arbitrary header fields; through both entry points. Expected packets come from an independent big-endian parse.',
         level_note='Trusted: TECMP layout in wire.h (device id = byte 1 as the library defines its 28-byte header; chassis/silicon temperature offsets corroborated only by the captured frame in the repository tests). Leniencies: class CAN vs CAN-FD not compared; status messages with non-zero data type, data lengths beyond the bus limit and incomplete trailing bus entries run under the weaker oracle "nothing or correct"; bytes beyond 28 + payload length run under the safety oracle only.',
-        stages=[dict(driver='drv_tecmp', flavour='asan')],
+        stages=[dict(driver='drv_tecmp', flavour='asan'),
+                dict(driver='fuzz_tecmp', flavour='fuzz', runner='fuzz', tiers=('thorough',), runs=dict(thorough=16000000), max_len=600)],
         rule='cases = TECMP frames; each frame through each of the two entry points is one evaluation; distinct_nontrivial = distinct (family, message type, data type, length class, CRC bytes, inner length delta) signatures.',
         assumptions=COMMON_ASSUME,
         floors=dict(quick=dict(distinct_nontrivial=60000, converted_and_compared=50000, expected_no_packet=50000, data_types_swept=65536, message_types_swept=256),
